@@ -595,16 +595,32 @@ def unwrap(v, t):
     if isinstance(t, TList) and isinstance(v, VSeq):
         if v.et != t.elem:
             raise TypeError("list elem mismatch %s vs %s" % (v.et, t.elem))
-        return t.dt.mk(v.arr, v.n)
+        return _eta(t.dt, [v.arr, v.n])
     if isinstance(t, TMap) and isinstance(v, VMap):
         if v.kt != t.k or v.vt != t.v:
             raise TypeError("map mismatch")
         if t.ordered:
-            return t.dt.mk(v.dom, v.val, v.card, v.order.arr)
-        return t.dt.mk(v.dom, v.val, v.card)
+            return _eta(t.dt, [v.dom, v.val, v.card, v.order.arr])
+        return _eta(t.dt, [v.dom, v.val, v.card])
     if isinstance(t, TSet) and isinstance(v, VSet):
-        return t.dt.mk(v.dom, v.card)
+        return _eta(t.dt, [v.dom, v.card])
     raise TypeError("cannot encode %s as %s" % (type(v).__name__, t))
+
+
+def _eta(dt, es):
+    """mk(acc_0(x), ..., acc_n(x)) is x: an unmodified container value read out of another container keeps its
+    original term (equalities between stored values stay syntactic)"""
+    x = None
+    for i, e in enumerate(es):
+        if not (z3.is_app(e) and e.num_args() == 1 and e.decl().eq(dt.accessor(0, i))):
+            return dt.mk(*es)
+        if x is None:
+            x = e.arg(0)
+        elif not x.eq(e.arg(0)):
+            return dt.mk(*es)
+    if x is not None and x.sort().eq(dt):
+        return x
+    return dt.mk(*es)
 
 
 # ---------------------------------------------------------------- type parsing
